@@ -64,6 +64,8 @@ func init() {
 		ruleInMemoryIdentityLookups(c, "R10k")
 		ruleReleaseMatchesTake(c, "R10l")
 		ruleForceIsTheRequests(c, "R10m")
+		ruleComputeMetadataMaps(c, "R10n")
+		ruleLastMeansLast(c, "R10o")
 		ruleRevertTranslation(c)
 		ruleReferencerSymmetric(c, "R10h")
 		ruleR02a(c, "R10e")
